@@ -217,7 +217,8 @@ OnRet(L, e, line) ==
                ncalls |-> Len(fg), fs |-> fromStore ]
   IN [ L EXCEPT !.t = e.t, !.inval = inval2, !.namedxo = xo2, !.eff = eff2,
          !.obsq = Append(L.obsq, obs),
-         !.swrx = IF swrServed THEN L.swrx \cup {[x |-> e.x, tok |-> e.tok, etag |-> rep.etag, lm |-> rep.lm]} ELSE L.swrx,
+         \* the validators are those of the STORED response (the reply may lack fields named by a qualified no-cache)
+         !.swrx = IF swrServed THEN L.swrx \cup {[x |-> e.x, tok |-> e.tok, etag |-> L.eff[e.tok].rep.etag, lm |-> L.eff[e.tok].rep.lm]} ELSE L.swrx,
          !.served = IF fromStore THEN L.served @@ (e.x :> e.tok) ELSE L.served,
          !.fuzzy = fuzzy2,
          !.last = [ kind |-> "ret", line |-> line, e |-> e, rq |-> rq, o |-> o, fg |-> fg, resp |-> resp,
@@ -263,7 +264,7 @@ M02(L) ==
        /\ ~Has(R.rq, "no-cache")
        /\ \E a \in R.ages : ~MustRevalidateApplies(R.rep, a)
        /\ (~R.contacted => \E a \in R.ages : ~RequestMaxAgeExceeded(R.rep, a, R.rq))
-       /\ (R.rep.ccp = 1 /\ Has(R.rep, "no-cache") /\ R.rep.ncf = 1 => R.e.h.secret = 0)
+       /\ (R.rep.ccp = 1 /\ Has(R.rep, "no-cache") /\ R.rep.ncf >= 1 => R.e.h.secret = 0)
   /\ (IsRet(L) => L.last.e.requnch = 1)
   /\ (IsRet(L) /\ L.last.fromStore /\ L.last.val304 /\ ~L.hadconc => ValidatorsOK(L))
   /\ (IsCall(L) =>
@@ -294,6 +295,8 @@ M05(L) ==
        /\ R.e.hopin = 0
        /\ (R.fromStore => R.e.e2eok = 1 /\ R.e.stsame = 1 /\ R.e.h.unk = 0)
   /\ (IsOp(L) /\ L.last.e.kind = "set" => L.last.e.hop = 0)
+  \* a body the caller read long after the return is still the origin's
+  /\ (L.last.kind = "mut" => L.last.e.body = 0)
 
 \* --- C06 ---------------------------------------------------------------
 MNS(L, T) == MustNotStore(L.tk[T].rq, L.tk[T].rep, L.tk[T].incomplete)
@@ -406,7 +409,7 @@ M12x(L) == IsRet(L) /\ HugeInvolved(L) => M01(L) /\ M09(L) /\ M13(L)
 \* --- C16 ---------------------------------------------------------------
 A16(L) == (IsRet(L) /\ L.conc) \/ L.last.kind \in {"mut", "race"} \/ (IsEnd(L) /\ L.swrx # {})
 M16(L) ==
-  /\ (L.last.kind = "mut" => L.last.e.resp = 0 /\ L.last.e.req = 0)
+  /\ (L.last.kind = "mut" => L.last.e.resp = 0 /\ L.last.e.req = 0 /\ L.last.e.body = 0)
   /\ L.last.kind # "race"
   \* a reply produced while other requests run is still an intact copy of one origin response
   /\ (IsRet(L) /\ L.hadconc /\ (L.last.fromStore \/ L.last.ownTok) =>
